@@ -59,6 +59,9 @@ pub struct VerifSearch {
     pub qlog: Option<Vec<(Board, bool, Vec<Move>)>>,
     /// when Some: every (position, move) pair the quiescence search actually recursed into
     pub qexamined: Option<Vec<(Board, Move)>>,
+    /// when Some: (position, ply, remaining depth, how it was answered) of every main-search node;
+    /// 0 = scored as a draw by repetition, 1 = answered from the transposition table, 2 = searched
+    pub nlog: Option<Vec<(Board, u8, u8, u8)>>,
 }
 
 impl Searcher {
@@ -176,6 +179,8 @@ impl Searcher {
         let original_alpha = alpha;
 
         if ply > 0 && self.is_draw_by_repetition(board) {
+            #[cfg(flounder_verif)]
+            self.verif_note_node(board, ply, depth, 0);
             return SearchResult::new(0, None);
         }
 
@@ -185,8 +190,12 @@ impl Searcher {
         {
             #[cfg(flounder_verif)]
             self.verif_note_tt_return(board, depth);
+            #[cfg(flounder_verif)]
+            self.verif_note_node(board, ply, depth, 1);
             return cached_result;
         }
+        #[cfg(flounder_verif)]
+        self.verif_note_node(board, ply, depth, 2);
 
         // Quiescence search checks, captures, and promotions
         if depth == 0 {
@@ -513,6 +522,12 @@ impl Searcher {
     /// The engine's own quiescence search on this position and window
     pub fn verif_quiesce(&mut self, board: &Board, alpha: i32, beta: i32) -> i32 {
         self.search_until_quiet(board, alpha, beta)
+    }
+
+    fn verif_note_node(&mut self, board: &Board, ply: u8, depth: u8, how: u8) {
+        if let Some(log) = self.verif.nlog.as_mut() {
+            log.push((*board, ply, depth, how));
+        }
     }
 
     fn verif_note_tt_return(&mut self, board: &Board, depth: u8) {
